@@ -131,7 +131,7 @@ using namespace gu;
 // Common runner: every oracle is always on.
 static void runSessionClass(const Scenario& sc, vf::Result& res) {
     sess::History h;
-    sess::runSession(sc, h, res);
+    harness_session_run(&sc, &h, &res);
     uci::Model m;
     uci::buildModel(h, m);
     uci::checkContract(h, m, res);
@@ -148,23 +148,27 @@ static void runSessionClass(const Scenario& sc, vf::Result& res) {
 // A search that ends by its own limit while its bestmove must still be withheld (go ponder/infinite with depth, nodes
 // or mate): the engine thread waits to be released while the helper threads are still searching. Options, Clear Hash,
 // isready arrive in that window; then the release.
-static void genWithheldWindow(Rng& r, Scenario& sc, pg::GenPos& gp, long long cost) {
+namespace gu {
+void genWithheldWindow(Rng& r, Scenario& sc, pg::GenPos& gp, long long cost) {
     if (r.chance(0.7)) pushSend(sc, "setoption name Threads value " + std::to_string(r.range(2, 6)));
     if (r.chance(0.5)) pushSend(sc, "setoption name Ponder value true");
+    const bool dense = r.chance(0.7);
+    const long long ttBefore = sc.knobInt("tt_yield", 0);
     pg::anyPosition(r, gp);
     pushSend(sc, gp.positionCmd);
-    std::string go = r.chance(0.7) ? "go ponder" : "go infinite";
+    std::string go = "go ponder"; // ('go infinite' ignores depth/nodes/mate: it would never end by itself)
     int lk = (int)r.below(3);
     if (lk == 0) go += " depth " + std::to_string(r.range(1, 4));
     else if (lk == 1) go += " nodes " + std::to_string(r.logRange(1, 2000));
     else go += " mate " + std::to_string(r.range(1, 2)) + " nodes " + std::to_string(r.logRange(50, 2000));
     pushSend(sc, go);
     sc.ops.push_back("wait_ticks 100000"); // falls through as soon as the engine thread sits in its release wait
+    if (dense) sc.ops.push_back("tt_yield " + std::to_string(r.range(1, 3))); // helpers get parked inside table accesses while the options arrive
     int n = (int)r.range(1, 4);
     for (int i = 0; i < n; i++) {
         if (r.chance(0.6)) sc.ops.push_back("wait_us " + std::to_string(r.logRange(1, 40000)));
         int k = (int)r.below(10);
-        if (k < 4) pushSend(sc, "setoption name Hash value " + std::to_string(r.chance(0.5) ? r.range(1, 4) : r.range(17, 40)));
+        if (k < 4 || i == 0) pushSend(sc, "setoption name Hash value " + std::to_string(r.chance(0.5) ? r.range(1, 4) : r.range(17, 40)));
         else if (k < 5) pushSend(sc, "setoption name Threads value " + std::to_string(r.range(1, 6)));
         else if (k < 6) pushSend(sc, "setoption name Clear Hash");
         else if (k < 7) pushSend(sc, "ucinewgame");
@@ -174,8 +178,10 @@ static void genWithheldWindow(Rng& r, Scenario& sc, pg::GenPos& gp, long long co
     if (r.chance(0.7)) sc.ops.push_back("wait_us " + std::to_string(r.logRange(1, 40000)));
     pushSend(sc, go.find("ponder") != std::string::npos && r.chance(0.6) ? "ponderhit" : "stop");
     sc.ops.push_back("wait_bestmove");
+    if (dense) sc.ops.push_back("tt_yield " + std::to_string(ttBefore));
     if (r.chance(0.5)) { pushSend(sc, "isready"); sc.ops.push_back("wait_readyok"); }
 }
+} // namespace gu
 
 // ------------------------------------------------------------------------------------------
 // C05: grammar-generated sessions
